@@ -274,7 +274,8 @@ def C14(t0):
     _warm()
     jobs = [('isqrt with adversarial hints', r1cs.check_adversarial_isqrt, ()), ('decompress_from_field with adversarial hints', r1cs.check_adversarial_decode, ()), ('witness allocation with adversarial coordinates', r1cs.check_adversarial_alloc, ())]
     from . import r1cs2
-    jobs += [('every witness-allocation impl with adversarial coordinates', r1cs2.check_adversarial_allocs, ()), ('laziness cannot bypass validation', r1cs2.check_validation_forced, ())]
+    jobs += [('every witness-allocation impl with adversarial coordinates', r1cs2.check_adversarial_allocs, ()), ('laziness cannot bypass validation', r1cs2.check_validation_forced, ()),
+             ('equality enforcement is decaf equality (a satisfied enforce_not_equal on equal elements is a soundness defect)', r1cs2.check_r1cs_semantics, ())]
     obs = par.run_groups(_fl(jobs, ark_only=True))
     return finish('C14', obs, t0, level='proof',
         functions=['FqVarExtension::isqrt (free flag and root witnesses)', 'inner::ElementVar::decompress_from_field', 'AllocVar<Element, Fq> and AllocVar<AffinePoint, Fq> for the inner and the outer ElementVar (witness mode)',
@@ -289,6 +290,11 @@ def C15(t0):
     _warm()
     jobs = [('shape traces of every r1cs gadget function (proving paths + setup mode)', shape.check_shapes, ()), ('public-input clause', shape.check_public_input, ()),
             ('pinned Groth16 keys (native ground oracle)', shape.check_groth16_native, ())]
+    # "proofs verify for every witness" needs, besides matching keys, that the honest prover's assignment satisfies the circuit for
+    # every input: the completeness half of C13 (honest synthesis of every gadget, operator forms, equality/selection/constants)
+    from . import r1cs, r1cs2
+    jobs += [(f'honest synthesis: {g}', r1cs.check_honest_gadgets, (g,)) for g in ('isqrt', 'sign gadgets', 'compress_to_field', 'decompress_from_field', 'elligator_map', 'is_eq')]
+    jobs += [(f'ElementVar op #{i} variant {v}', r1cs.check_r1cs_ops, ((i, v),)) for i in range(10) for v in (0, 1)] + [('equality enforcement, selection, constants', r1cs2.check_r1cs_semantics, ())]
     obs = par.run_groups(jobs)
     return finish('C15', obs, t0, level='proof',
         functions=['every function of src/ark_curve/r1cs/{element,inner,fqvar_ext,ops,lazy}.rs (enumerated from the MIR; 127 scenarios: operand states element/encoding, allocation modes, Boolean operands)',
